@@ -150,7 +150,7 @@ def check_r4(ctx, db, config, A):
     c11.run(runner.Sub(ctx, 'R6', 'C11'), config)
     # ---- R7 grow / shrink / deallocate keep every live block inside an iterated slice also when they fail half-way: C12
     from . import c12
-    c12.run(runner.Sub(ctx, 'R7', 'C12'), config)
+    c12.run(runner.Sub(ctx, 'R7', 'C12', only={'O2', 'R4'}), config)     # the finger obligations only
 
 
 def bump_exact(I, P0, x, facts, old, L):
